@@ -53,12 +53,12 @@ PROPS = {
         'trusted': ['sum/min/max/len builtins uninterpreted on sequence terms (congruence on extensionally equal arguments)', 'A-real: x**2 == x*x'],
     },
     'C07': {
-        'level': 'proof',
+        'level': 'proof', 'extra': ['pyframe.effects'],
         'explanation': 'slice_length equals len(range(n)[s]) for all integers including symbolic step; Vector.copy and __getitem__ (int, slice, bool-vector, bool-list keys) equal Python sequence semantics with dtype / name / row flag kept, IndexError / ValueError exactly when Python raises; the 12 comparison / logical dunders apply their own operator. Index-list keys and Table.__getitem__ (rows uniform, missing names, commutation) are bounded only.',
         'trusted': ['slice.indices encoding (validated against CPython on a cube each run)'],
     },
     'C08': {
-        'level': 'exploration',
+        'level': 'exploration', 'extra': ['pyframe.effects'],
         'explanation': 'validate_scalar (accept / reject decision per value) and slice_length are discharged by z3 (counted under C04/C07 evidence too); Vector.__setitem__ itself (index phase, multi-value decision, commit) is bounded only in this round: exhaustive key forms x value forms with list assignment as oracle and a snapshot comparison on every failure.',
     },
     'C09': {
